@@ -57,13 +57,27 @@ func (p *Printed) MarkLine(id int, role string) (int, bool) {
 }
 
 type printer struct {
-	out   []Lex
-	first map[int]int
-	last  map[int]int
-	marks map[MarkKey]int
+	out    []Lex
+	first  map[int]int
+	last   map[int]int
+	marks  map[MarkKey]int
+	expand map[string][]string // constant uses ("$NAME") are printed as their expansion
 }
 
+// tok emits one lexeme. A token of the form "$NAME" is a use of constant
+// NAME: it is printed as NAME, or as the constant's expansion when the
+// printer was asked to substitute constants by hand.
 func (w *printer) tok(s string) int {
+	if len(s) > 1 && s[0] == '$' {
+		if w.expand != nil {
+			first := len(w.out)
+			for _, t := range w.expand[s[1:]] {
+				w.out = append(w.out, Lex{S: t})
+			}
+			return first
+		}
+		s = s[1:]
+	}
 	w.out = append(w.out, Lex{S: s})
 	return len(w.out) - 1
 }
@@ -92,9 +106,16 @@ func (w *printer) mark(id int, role string, idx int) {
 }
 
 // Print turns a program into lexemes (no layout yet).
-func Print(p *Program) *Printed {
-	w := &printer{first: map[int]int{}, last: map[int]int{}, marks: map[MarkKey]int{}}
+func Print(p *Program) *Printed { return PrintExpanded(p, nil) }
+
+// PrintExpanded prints the program with every constant use replaced by the
+// given expansion and the const statements left out (expand != nil).
+func PrintExpanded(p *Program, expand map[string][]string) *Printed {
+	w := &printer{first: map[int]int{}, last: map[int]int{}, marks: map[MarkKey]int{}, expand: expand}
 	for _, it := range p.Items {
+		if _, isConst := it.(*Const); isConst && expand != nil {
+			continue
+		}
 		w.item(it)
 	}
 	return &Printed{Lex: w.out, First: w.first, Last: w.last, Marks: w.marks}
